@@ -21,12 +21,22 @@ pub fn no_child(_: &[String]) -> i32 {
 pub mod codec;
 pub mod okey;
 pub mod walframe;
+pub mod capi_sched;
+pub mod locks;
+pub mod handles;
+pub mod snapsched;
+pub mod backup;
 
 pub fn all() -> Vec<StreamDef> {
     vec![
         codec::def(),
         okey::def(),
         walframe::def(),
+        capi_sched::def(),
+        locks::def(),
+        handles::def(),
+        snapsched::def(),
+        backup::def(),
     ]
 }
 
